@@ -122,9 +122,42 @@ CONFIG_EABF_HARM = _EXT_CV + _ABF % "" + _HARM
 CONFIG_HIST = CONFIG_GRID[:CONFIG_GRID.index("metadynamics {")]
 # shared ABF (multiple-walker): needs a replica interface (vsim `replicas 0 2 -1 -1`: two replicas, no channel; sharedFreq
 # is larger than the run, so nothing is ever exchanged); its state has local_* grids and the OPTIONAL last_* section
+# more than two of everything, two holders of one kind, unnamed objects with default names: three variables (the second
+# unnamed: "colvar2"), two unnamed restraints (harmonic1, harmonic2), two unnamed metadynamics biases (the first, on one
+# variable, is NOT the last object; the second on two variables)
+def _cv(name, atom):
+    return "colvar {\n%s  distanceZ {\n    main { atomNumbers %d }\n    ref { dummyAtom (0,0,0) }\n    axis (0,0,1)\n  }\n}\n" % (
+        ("  name %s\n" % name) if name else "", atom)
+CONFIG_TWIN = _cv("d", 1) + _cv(None, 2) + _cv("f", 3) + """metadynamics {
+  colvars d
+  hillWeight 0.1
+  newHillFrequency 1
+  hillWidth 1.0
+  useGrids off
+}
+harmonic {
+  colvars d f
+  centers 1.0 1.0
+  forceConstant 2.0
+}
+metadynamics {
+  colvars colvar2 f
+  hillWeight 0.1
+  newHillFrequency 2
+  hillWidth 1.0
+  useGrids off
+}
+harmonic {
+  colvars colvar2
+  centers 1.0
+  forceConstant 2.0
+}
+"""
+NATOMS = {"twin": 4}
+POSITIONS = {"twin": ["pos 1 0 0 1.25", "pos 2 0 0 0.5", "pos 3 0 0 2.0"]}
 CONFIG_SABF = _EXT_CV + _ABF % "  shared on\n  sharedFreq 1000\n  CZARestimator off\n"
 CONFIGS = {"base": CONFIG, "grid": CONFIG_GRID, "extra": CONFIG_EXTRA, "eabf": CONFIG_EABF, "eabf_nocz": CONFIG_EABF_NOCZ,
-           "eabf_harm": CONFIG_EABF_HARM, "hist": CONFIG_HIST, "sabf": CONFIG_SABF}
+           "eabf_harm": CONFIG_EABF_HARM, "hist": CONFIG_HIST, "sabf": CONFIG_SABF, "twin": CONFIG_TWIN}
 PRELUDE = {"extra": ["temperature 300"], "eabf": ["temperature 300"], "eabf_nocz": ["temperature 300"], "eabf_harm": ["temperature 300"],
            "sabf": ["temperature 300", "replicas 0 2 -1 -1"]}
 NBINS = 4   # lowerBoundary 0, upperBoundary 4, width 1
@@ -132,8 +165,9 @@ NBINS = 4   # lowerBoundary 0, upperBoundary 4, width 1
 
 def scenario(sess, name=NAME, distinct=False):
     """sess = {"first": step number to start from, "pre": steps before the first save, "saves": ["text"|"binary", ...]}"""
-    L = ["unbuffered", "natoms 2"] + PRELUDE.get(sess.get("config", "base"), []) + ["new", "config EOF"] + CONFIGS[sess.get("config", "base")].strip("\n").split("\n") + ["EOF",
-         "show cv 0 atomf 0 energy 0 bias 0", "setstep %d" % sess["first"], "pos 1 0 0 1.25"]
+    cfgname = sess.get("config", "base")
+    L = ["unbuffered", "natoms %d" % NATOMS.get(cfgname, 2)] + PRELUDE.get(cfgname, []) + ["new", "config EOF"] + CONFIGS[cfgname].strip("\n").split("\n") + ["EOF",
+         "show cv 0 atomf 0 energy 0 bias 0", "setstep %d" % sess["first"]] + POSITIONS.get(cfgname, ["pos 1 0 0 1.25"])
     L += ["step"] * sess["pre"]
     for i, mode in enumerate(sess["saves"]):
         L.append("step")
@@ -147,7 +181,7 @@ def scenario(sess, name=NAME, distinct=False):
 
 
 def load_scenario(prefix, config="base", bias=False, how="file"):
-    L = ["natoms 2"] + PRELUDE.get(config, []) + ["new", "config EOF"] + CONFIGS[config].strip("\n").split("\n") + ["EOF"]
+    L = ["natoms %d" % NATOMS.get(config, 2)] + PRELUDE.get(config, []) + ["new", "config EOF"] + CONFIGS[config].strip("\n").split("\n") + ["EOF"]
     if bias:
         # colvarbias::read_state_prefix takes the file name itself when <prefix>.colvars.state is not there
         L += ["script cv bias m load %s" % prefix]
@@ -825,6 +859,11 @@ def tx_line(text, config="base"):
         cfg = "cv:%d b:%d.%d.%d.0.%s" % (wid("d"), wid("abf"), wid("abf"), wid("a"), lay)
         if config == "eabf_harm":
             cfg += ",%d.%d.%d.0" % (wid("restraint"), wid("harmonic"), wid("h"))
+    elif config == "twin":
+        cfg = "cv:%d,%d,%d b:%d.%d.%d.0,%d.%d.%d.0,%d.%d.%d.1,%d.%d.%d.1" % (
+            wid("d"), wid("colvar2"), wid("f"),
+            wid("restraint"), wid("harmonic"), wid("harmonic1"), wid("restraint"), wid("harmonic"), wid("harmonic2"),
+            wid("metadynamics"), wid("metadynamics"), wid("metadynamics1"), wid("metadynamics"), wid("metadynamics"), wid("metadynamics2"))
     elif config == "sabf":
         lay = "+".join("k%d+w%d" % (wid(k), NBINS) for k in ("samples", "gradient", "local_samples", "local_gradient", "last_samples", "last_gradient"))
         cfg = "cv:%d b:%d.%d.%d.0.%s" % (wid("d"), wid("abf"), wid("abf"), wid("a"), lay)
@@ -860,6 +899,10 @@ def tb_line(data, config="base"):
             bs += ",%s.%s.0.1" % (hx("restraint"), hx("harmonic"))
     elif config == "hist":
         bs = "%s.%s.0.1.k%s+o%d" % (hx("histogram"), hx("histogram"), hx("grid"), NBINS)
+    elif config == "twin":
+        bs = ",".join(["%s.%s.0.1" % (hx("restraint"), hx("harmonic"))] * 2 +
+                      ["%s.%s.1.1" % (hx("metadynamics"), hx("metadynamics")), "%s.%s.1.2" % (hx("metadynamics"), hx("metadynamics"))])
+        return "TB n:3 b:%s d:%s" % (bs, data.hex())
     else:
         return None
     return "TB n:1 b:%s d:%s" % (bs, data.hex())
@@ -922,7 +965,7 @@ def other_entry_points(run, vsim, d, quick, cfgname, fmt, data, verdicts, r):
 
 
 def run_damage_grid(run, vsim, d, quick, model):
-    for cfgname in ("grid", "extra", "eabf", "eabf_nocz", "eabf_harm", "hist", "sabf"):
+    for cfgname in ("grid", "extra", "eabf", "eabf_nocz", "eabf_harm", "hist", "sabf", "twin"):
         run_damage_config(run, vsim, d, quick, model, cfgname)
 
 
@@ -976,6 +1019,13 @@ def run_damage_config(run, vsim, d, quick, model, cfgname):
     rcm, mout, em = V.run_lines(model, lines, timeout=600)
     ndis = 0
     for (cut, verdict), mo in zip(verdicts, mout + ["<none>"] * (len(lines) - len(mout))):
+        if text[:cut].endswith(b"}") and mo.strip() != verdict:
+            # boundary-ambiguous: the file ends directly after a closing brace (no newline).  getline() then sets eofbit,
+            # the `is.tellg() > pos` test of read_objects_state fails (tellg() on a stream at EOF sets failbit) and the loop goes on
+            # to the next variable/bias, which reports an error.  The token model has no "white space after the last word" bit;
+            # states written by Colvars always end with a newline.
+            run.dist("damage:text-prefix-boundary-ambiguous(EOF-after-brace)")
+            continue
         if mo.strip() != verdict:
             ndis += 1
             run.mismatch("text-reader-tie", {"config": cfgname, "cut": cut, "of": n, "tail": text[max(0, cut - 30):cut].decode("latin1")}, verdict, mo.strip())
@@ -990,9 +1040,10 @@ def run_damage_config(run, vsim, d, quick, model, cfgname):
         for m in re.finditer(rb"[\x01-\x20]\x00{7}[a-z_]{3,22}", binary):
             if struct.unpack("<Q", binary[m.start():m.start() + 8])[0] == m.end() - m.start() - 8:
                 boffs |= set(range(max(5, m.start() - 1), min(nb, m.end() + 9)))
-        if cfgname in ("grid", "extra") and len(boffs) > 150:
-            # (no binary model for these: a sample; the thorough tier takes every offset)
-            boffs = set(r.sample(sorted(boffs), 150)) | set(range(max(5, nb - 16), nb))
+        cap = 150 if cfgname in ("grid", "extra") else 230
+        if len(boffs) > cap:
+            # a sample of them; the thorough tier takes every offset
+            boffs = set(r.sample(sorted(boffs), cap)) | set(range(max(5, nb - 16), nb))
     else:
         # every offset (the binary states of these configurations are small); OPES: every second one
         boffs = set(range(5, nb)) if cfgname != "extra" else (set(range(5, nb, 2)) | set(range(max(5, nb - 40), nb)))
